@@ -89,6 +89,7 @@ fn snapshot(w: &World, cid: &ChannelId, pending_to_b: Vec<usize>) -> Snap {
 	}
 }
 
+#[derive(Debug)]
 pub struct Outcome {
 	pub label: String,
 	pub punished: bool,
@@ -485,4 +486,28 @@ pub fn run(args: &Args) -> i32 {
 	ev.assume("the cheater is a real LDK node restored from B's earlier durable state with its signer policy checks off; it broadcasts whatever the real code broadcasts for that state (commitment, HTLC-success with preimages it knows, later timeouts / to_local claims)");
 	ev.assume("miner: confirms every valid transaction in the next block in admission order; the victim may be kept uninformed for 0-2 blocks");
 	mc_common::findings::conclude("C06", &violations, &mut ev)
+}
+
+/// Re-runs one case named by its Debug form (as written in a violation's replay file).
+pub fn replay_case(case: &str) -> i32 {
+	for tier in [Tier::Quick, Tier::Thorough] {
+		if let Some(c) = cases(tier).into_iter().find(|c| format!("{:?}", c) == case) {
+			let r = par::guarded(|| run_case(&c));
+			return match r {
+				Ok(Ok(o)) => {
+					println!("case {:?}: held ({:?})", c, o);
+					0
+				},
+				Ok(Err((oracle, detail))) => {
+					println!("case {:?}: {} {}", c, oracle, detail);
+					1
+				},
+				Err(p) => {
+					println!("case {:?}: panic {}", c, p);
+					1
+				},
+			};
+		}
+	}
+	mc_common::cli::die("unknown case in replay file")
 }
